@@ -206,6 +206,66 @@ def obj_case(draw):
     return case
 
 
+# --------------------------------------------------------------------------------------- no tcp/udp protocol
+def judge_noproto(case) -> Verdict:
+    """A port expression on an object that was given no tcp/udp protocol (keyword omitted, '', 'ip', 'icmp', or the
+    line assigned to an empty object): the object renders no text, but operator, items, port list and range string
+    are the expression's, and writing each of them back changes nothing and raises nothing."""
+    from cisco_acl import Port
+
+    op, vals, platform, how = case["op"], case["v"], case["platform"], case.get("how", "omitted")
+    validate_case(dict(case, proto="tcp"))
+    line = op + " " + " ".join(str(x) for x in vals)
+    if how == "omitted":
+        p = Port(line, platform=platform)
+    elif how in ("", "ip", "icmp"):
+        p = Port(line, platform=platform, protocol=how)
+    elif how == "late-line":
+        p = Port(platform=platform, protocol="tcp")
+        p.line = line
+    else:
+        raise Invalid()
+    v = Verdict()
+    where = f"noproto:{op}"
+    check_views(v, p, op, vals, where + ":fresh")
+    if v.fails:
+        return v
+    for view in case.get("views") or ["items", "ports", "sport"]:
+        if view not in ("items", "ports", "sport") or (view == "ports" and op == "neq"):
+            continue
+        before = snapshot(p)
+        try:
+            val = getattr(p, view)
+            setattr(p, view, list(val) if isinstance(val, list) else val)
+        except (ValueError, TypeError, IndexError) as ex:
+            v.fail(f"{where}:{view}-writeback-raises", {"line": line, "how": how, "error": f"{type(ex).__name__}: {ex}"[:200]})
+            return v
+        check_views(v, p, op, vals, f"{where}:after-{view}")
+        after = snapshot(p)
+        if len(set(vals)) != len(vals):
+            before = {k: before[k] for k in ("operator", "ports")}
+            after = {k: after[k] for k in ("operator", "ports")}
+        if after != before and not v.fails:
+            v.fail(f"{where}:{view}-writeback-changes", {"line": line, "how": how,
+                                                         "changed": [k for k in before if before[k] != after[k]]})
+        if v.fails:
+            return v
+    v.nt()
+    v.label(op, f"protocol={how or 'empty'}")
+    return v
+
+
+@st.composite
+def noproto_case(draw):
+    case = draw(obj_case())
+    case.pop("slow", None)
+    if case["op"] == "neq":
+        case["v"] = case["v"][:2]
+    return {"op": case["op"], "v": case["v"], "platform": case["platform"], "nm": [],
+            "how": draw(st.sampled_from(["omitted", "omitted", "", "ip", "icmp", "late-line"])),
+            "views": draw(st.permutations(["items", "ports", "sport"]))}
+
+
 # --------------------------------------------------------------------------------------- codec
 def judge_codec(case) -> Verdict:
     from cisco_acl import helpers as h
@@ -368,6 +428,7 @@ SUBS = [
     Sub("obj", judge_obj, strategy=lambda tier: obj_case(), quick=700, thorough=60000),
     Sub("codec", judge_codec, strategy=lambda tier: codec_case(), quick=1500, thorough=60000),
     Sub("history", judge_history, strategy=lambda tier: history_case(), quick=300, thorough=20000),
+    Sub("no-protocol", judge_noproto, strategy=lambda tier: noproto_case(), quick=300, thorough=10000),
 ]
 
 
